@@ -48,7 +48,7 @@ pub fn gen_transport(r: &mut Rng) -> Vec<Tree> {
         let mutk = |r: &mut Rng| -> (u64, u64, u64) {
             if r.chance(4, 5) { (0, 0, 0) } else { (r.range(1, 4), r.below(11000), r.below(256)) }
         };
-        let w: [u32; 19] = [18, 5, 5, 10, 10, 5, 5, 8, 8, 6, 6, 5, 3, 3, 2, 2, 1, 2, 3];
+        let w: [u32; 21] = [18, 5, 5, 10, 10, 5, 5, 8, 8, 6, 6, 5, 3, 3, 2, 2, 1, 2, 3, 2, 2];
         match r.weighted(&w) {
             0 => {
                 let dt = *r.pick(&[16 * MS, 100 * MS, 250 * MS, 250 * MS, SEC]);
@@ -118,6 +118,34 @@ pub fn gen_transport(r: &mut Rng) -> Vec<Tree> {
             15 => ops.push(l(vec![n(226u8), n(id)])),
             16 => ops.push(l(vec![n(210u8)])),
             17 => ops.push(l(vec![n(229u8), n(*r.pick(&[1u64, 2, 4]))])),
+            18 => {
+                // the application disconnects the message layer of the client, then the transport is updated
+                ops.push(l(vec![n(232u8), n(k)]));
+                ops.push(l(vec![n(203u8), n(k), n(16 * MS)]));
+                ops.push(l(vec![n(250u8), n(k), n(0u8), n(0u8), n(0u8), n(0u8)]));
+            }
+            19 => {
+                // the same inside the handshake window: the response reached the server, the accept did not reach the client
+                let t = token(r, &mut ops, k, now);
+                ops.push(l(vec![n(202u8), n(k), n(now), n(t), n(budget), cfg_tree(&cfg), cfg_tree(&cfg)]));
+                for _ in 0..2 {
+                    ops.push(l(vec![n(203u8), n(k), n(250 * MS)]));
+                    ops.push(l(vec![n(250u8), n(k), n(0u8), n(0u8), n(0u8), n(0u8)]));
+                    ops.push(l(vec![n(205u8), n(16 * MS)]));
+                    if r.chance(3, 4) {
+                        ops.push(l(vec![n(251u8), n(k), n(0u8), n(0u8), n(0u8), n(0u8)]));
+                        ops.push(l(vec![n(203u8), n(k), n(250 * MS)]));
+                        ops.push(l(vec![n(250u8), n(k), n(0u8), n(0u8), n(0u8), n(0u8)]));
+                        ops.push(l(vec![n(205u8), n(16 * MS)]));
+                    }
+                }
+                ops.push(l(vec![n(232u8), n(k)]));
+                ops.push(l(vec![n(203u8), n(k), n(16 * MS)]));
+                ops.push(l(vec![n(250u8), n(k), n(0u8), n(0u8), n(0u8), n(0u8)]));
+                ops.push(l(vec![n(205u8), n(16 * MS)]));
+                ops.push(l(vec![n(228u8), n(k)]));
+                ops.push(l(vec![n(227u8)]));
+            }
             _ => {
                 // a fresh attempt for this client slot
                 let t = token(r, &mut ops, k, now);
